@@ -4,8 +4,10 @@
     - a transaction is the tuple (account, nonce, id, timestamp); its hash is modelled as the
       transaction itself (SHA-256 of the marshalled fields is assumed injective);
     - accounts are numbers ordered like the pool orders the address strings;
-    - the ledger-nonce oracle [GetAccountNonce] is fixed between restarts, so the lazily filled
-      commit-nonce cache is not observable and [get_cn] reads through to the ledger;
+    - the ledger-nonce oracle [GetAccountNonce] is read through a cache that is filled on first
+      use and never refreshed; [OSetLedger] moves the oracle.  [get_cn] reads the cache, else the
+      oracle; the cache is filled for every account of the observation frame after every step
+      (that is what the driver's queries do to the real pool);
     - the rebroadcast clock (ttlIndex / GetTimeoutTransactions) is not modelled: it is touched
       by no other operation;
     - a [defects] record selects, per listed defect, the faithful (true) or repaired (false)
@@ -89,6 +91,7 @@ Record state := mkState {
   seqno : N                       (* batchSeqNo *)
 }.
 
+Definition set_ledger s v := mkState v (hashmap s) (items s) (index s) (cnonce s) (pnonce s) (arrival s) (parking s) (priority s) (batched s) (pnbs s) (seqno s).
 Definition set_hashmap s v := mkState (ledger s) v (items s) (index s) (cnonce s) (pnonce s) (arrival s) (parking s) (priority s) (batched s) (pnbs s) (seqno s).
 Definition set_items s v := mkState (ledger s) (hashmap s) v (index s) (cnonce s) (pnonce s) (arrival s) (parking s) (priority s) (batched s) (pnbs s) (seqno s).
 Definition set_index s v := mkState (ledger s) (hashmap s) (items s) v (cnonce s) (pnonce s) (arrival s) (parking s) (priority s) (batched s) (pnbs s) (seqno s).
@@ -332,7 +335,8 @@ Section Model.
   | ORemoveOld (now dur : N)
   | OSetSeq (n : N)
   | ORestart (height : N) (led : list (N * N))
-  | ODrain (rounds : nat).        (* rounds x (GenerateBlock; CommitTransactions of that batch) *)
+  | ODrain (rounds : nat)         (* rounds x (GenerateBlock; CommitTransactions of that batch) *)
+  | OSetLedger (a n : N).         (* the environment's ledger now reports nonce n for account a *)
 
   Record obs := mkObs {
     o_batches : list batch;
@@ -366,6 +370,16 @@ Section Model.
     | OSetSeq n => (set_seqno s n, [], 0)
     | ORestart h led => (init_state h led, [], 0)
     | ODrain k => let '(s', bs) := drain k s in (s', bs, 0)
+    | OSetLedger a n => (set_ledger s (aset N.eqb a n (ledger s)), [], 0)
+    end.
+
+  (** nonceCache.getCommitNonce fills the commit-nonce cache from the ledger oracle on first use
+      and never refreshes it.  The driver queries every account of the frame after every step,
+      so after each step the cache holds an entry for each of them. *)
+  Definition touch (s : state) (a : N) : state :=
+    match alookup N.eqb a (cnonce s) with
+    | Some _ => s
+    | None => set_cnonce s ((a, lookup0 a (ledger s)) :: cnonce s)
     end.
 
   (** the observation frame: the accounts and transactions the driver queries after every step *)
@@ -378,7 +392,8 @@ Section Model.
           [pnbs s; len (priority s); len (parking s); len (batched s); len (hashmap s); len (arrival s); seqno s].
 
   Definition step (s : state) (o : op) : state * obs :=
-    let '(s', bs, r) := apply_op s o in (s', observe s' bs r).
+    let '(s', bs, r) := apply_op s o in
+    let s'' := fold_left touch accts s' in (s'', observe s'' bs r).
 
   Fixpoint run (s : state) (ops : list op) : list (op * obs) :=
     match ops with
